@@ -30,7 +30,8 @@ from vf.common import Run, seed, tier, use_repo, chash, SCRATCH
 from vf.sandbox import pmap
 
 BIG_N = [3_000_000_000, 2 ** 32, 2 ** 31, 2 ** 32 + 2, 10 ** 12]      # "until it is done": counts beyond a C int
-ALPHA = ["setup1", "setup2", "setup3", "iterate", "iterate_n3", "iterate_n0", "iterate_nbig", "run0", "sample", "get_progress",
+BAD_SCRIPTS = [None, 12, "script.json", {"system": None}]      # not scripts: setup() must refuse them and leave the engine as it was
+ALPHA = ["setup1", "setup2", "setup3", "badsetup", "iterate", "iterate_n3", "iterate_n0", "iterate_nbig", "run0", "sample", "get_progress",
          "is_complete", "get_output", "finalize"]
 AFTER_RELEASE = {"setup1", "setup2", "setup3", "finalize", "is_complete"}
 NATIVE_STATE_CHANGING = {"setup1", "setup2", "setup3", "iterate", "iterate_n3", "iterate_nbig", "run0", "sample", "finalize"}
@@ -169,6 +170,14 @@ def play(kind_, seq, eng, model, refs, bad, counts, ctx, observe=None):
             model.setup(which, refs[which])
             R = refs[which]
             ret = "ok"
+        elif call == "badsetup":
+            try:
+                eng.setup(BAD_SCRIPTS[pos % len(BAD_SCRIPTS)])
+                fail("setup() accepted something that is not a script", pos, call, argument=repr(BAD_SCRIPTS[pos % len(BAD_SCRIPTS)]))
+                return
+            except Exception:
+                ret = "refused"
+            cnt("refused_setups")
         elif call == "iterate":
             ret = eng.iterate()
         elif call == "iterate_n3":
@@ -352,6 +361,12 @@ def _apply(eng, call, refs):
     if call in ("setup1", "setup2", "setup3"):
         eng.setup(refs[int(call[-1])]["script"])
         return "ok"
+    if call == "badsetup":
+        try:
+            eng.setup(None)
+            return "accepted"
+        except Exception:
+            return "refused"
     if call == "iterate":
         return eng.iterate()
     if call == "iterate_n3":
@@ -425,7 +440,7 @@ def other_engine_touched_native_state(seq, pos, who=None):
     live = {}
     for p, (w, c) in enumerate(seq[:pos + 1]):
         believes_live = live.get(w, False)
-        if c not in ("is_complete",) and not c.startswith("setup"):
+        if c not in ("is_complete", "badsetup") and not c.startswith("setup"):
             if c == "finalize":
                 if believes_live and (owner != w or freed):
                     return True
@@ -632,7 +647,7 @@ def main():
     thorough = tier() == "thorough"
     L = 4 if thorough else 3
     run = Run("C10",
-              rule="(A) EXHAUSTIVE: all call sequences of length %d after an initial setup(s1|s2|s3) over a 12-call alphabet, on "
+              rule="(A) EXHAUSTIVE: all call sequences of length %d after an initial setup(s1|s2|s3) over a 14-call alphabet, on "
                    "one engine object, for each of the 3 engine kinds (sequences calling anything but setup/finalize/is_complete "
                    "on a released engine are pruned), plus random sequences of length 5..12; (B) random interleavings of up to 40 calls over two engine objects of "
                    "random kinds, compared call by call with each engine's projection run alone; (C) set-up + loop termination "
@@ -848,7 +863,7 @@ def main():
         import shutil
         shutil.rmtree(pdir, ignore_errors=True)
     run.exhaustive = False
-    run.note("exhaustive_part", "(A) all %d-call sequences over the 12-call alphabet after setup(s1|s2|s3), per engine kind" % L)
+    run.note("exhaustive_part", "(A) all %d-call sequences over the 14-call alphabet after setup(s1|s2|s3), per engine kind" % L)
     return run.finish()
 
 
